@@ -42,7 +42,8 @@ where
     where
         A: LWEInfos,
     {
-        let (data, scratch) = self.take_vec_znx(infos.n().into(), 1, infos.size());
+        // An LWE of dimension n stores n + 1 coefficients per limb (body and mask), see `LWE::alloc`.
+        let (data, scratch) = self.take_vec_znx((infos.n() + 1).into(), 1, infos.size());
         (
             LWE {
                 base2k: infos.base2k(),
